@@ -320,13 +320,15 @@ check("C03", "fault_enumeration",
       "(D) cheating prover (component level, the call sequence of Batch::validate on hand-built consistent intermediates of 1/2/5 (9) "
       "blocks): a helper flips one transmitted product-share bit and then runs the real proof generation lying about that "
       "multiplication's table index in every way (u or v index xor 1..7), with and without doctoring the first proof to the "
-      "expected sum, or adding +-1 to single proof entries; every cheater role, bit positions 0/77/255 (12 positions). "
+      "expected sum, or adding +-1 to single proof entries; every cheater role, bit positions 0/77/255 (12 positions); honest "
+      "component batches on either side of every proof-recursion threshold (3*4^k multiplications: 3, 12, 48 ... 49 152 blocks "
+      "and one more each - the last needs all 14 recursion levels) must be accepted. "
       "Oracle: honest => all three accept and products reconstruct; any flip => at least one honest helper rejects, whatever the "
       "prover does afterwards. distinct_nontrivial = honest batches + flips that changed a byte + prover strategies.",
       [{"name": "dzkp", "config": "A", "test": "verif::c03::run", "timeout": {"quick": 1200, "thorough": 10800},
         "require": {"any": {"honest_batches": 60, "recorded_flips": 100, "wire_rejected": 200, "channels_in_census": 20}}},
        {"name": "prover", "config": "A", "test": "protocol::ipa_prf::verif::c03p::run", "timeout": {"quick": 900, "thorough": 3600},
-        "require": {"any": {"cheating_prover_rejected": 500, "distinct:rejecting_verifier": 3}}}],
+        "require": {"any": {"cheating_prover_rejected": 500, "distinct:rejecting_verifier": 3, "honest_component_batches": 19}}}],
       assumptions=["soundness error of the proof system (~2^-61 per challenge) is not explored; seeds fixed",
                    "the table identity of TABLE_U/TABLE_V (design item 1) is covered indirectly through acceptance/rejection only",
                    "cheating-prover strategies are the listed family (index lies, first-proof sum fix, single-entry tampering); adaptive "
